@@ -428,18 +428,21 @@ def _lazy_cat(
             )
         if out.stack_dim != dim:
             index_base = (slice(None),) * out.stack_dim
+            # the members of out do not have the stack dim of out
+            sub_dim = dim if dim < out.stack_dim else dim - 1
             for i, sub_dest in enumerate(out.tensordicts):
                 index = index_base + (i,)
                 tds_to_cat = [_td[index] for _td in list_of_tensordicts]
-                torch.cat(tds_to_cat, dim, out=sub_dest)
+                torch.cat(tds_to_cat, sub_dim, out=sub_dest)
         else:
             init_idx = 0
             for td_in in list_of_tensordicts:
-                sub_dest = out.tensordicts[init_idx : init_idx + td_in.shape[dim]]
-                init_idx += init_idx + td_in.shape[dim]
-                LazyStackedTensorDict.maybe_dense_stack(sub_dest, out.stack_dim).update(
-                    td_in, inplace=True
-                )
+                num_in = td_in.shape[dim]
+                sub_dest = out.tensordicts[init_idx : init_idx + num_in]
+                init_idx += num_in
+                # write into the members of out (a dense stack would be a copy)
+                for dest, source in _zip_strict(sub_dest, td_in.unbind(dim)):
+                    dest.update(source, inplace=True)
 
         return out
 
